@@ -130,6 +130,7 @@ class SimSlurm:
         self.refused = {}
         self.sticky_refused = set()  # scripts the scheduler refuses on every attempt (fault 'fail-all')
         self.squeue_down = set()  # vproc indices for which squeue fails on every attempt of this round
+        self.odd_used = 0  # squeue answers that showed an active batch in an unusual state (scenario option odd_states)
 
     # ----------------------------------------------------------------- state for caching
     def state_repr(self):
@@ -141,7 +142,7 @@ class SimSlurm:
             parts.append(f"{vi}.{n}")
         parts.append("|")
         parts.append(",".join(f"{k}={v}" for k, v in sorted(self.attempt.items())))
-        parts.append(f"|{self.sbatch_count}|{sorted(self.sticky_refused)}|{sorted(self.squeue_down)}")
+        parts.append(f"|{self.sbatch_count}|{sorted(self.sticky_refused)}|{sorted(self.squeue_down)}|{self.odd_used}")
         return " ".join(parts)
 
     # ----------------------------------------------------------------- scenario answers
@@ -339,9 +340,17 @@ class SimSlurm:
             vis = [self.batches[jid]]
         if name is not None:
             vis = [b for b in vis if b.name == name]
+        odd = alt[4:] if alt.startswith("odd:") else None
+        if odd is not None:
+            self.odd_used += 1
         for b in vis:
-            vals = {"jobid": b.id, "name": b.name or "", "state": b.state}
+            vals = {"jobid": b.id, "name": b.name or "", "state": "SUSPENDED" if b.id == odd else b.state}
             rows.append("".join("%-20s" % vals.get(f, "") for f in fields))
+        if jid is None and name is None:
+            # other jobs of the same user that have nothing to do with this submission
+            for fid in self.world.scen.get("foreign_jobs", ()):
+                vals = {"jobid": str(fid), "name": "other", "state": "RUNNING"}
+                rows.append("".join("%-20s" % vals.get(f, "") for f in fields))
         out = "\n".join(rows) + ("\n" if rows else "")
         return 0, out.encode(), b""
 
@@ -399,6 +408,16 @@ class VProcess:
                 # state cannot be the last thing JADE ever sees)
                 # a cancelled batch lingers in squeue for a while: zero-cost choice per query
                 alts = ["", "show-cancelled"]
+            if prog == "squeue" and sim.odd_used < w.scen.get("odd_states", 0):
+                # an active batch (suspended by gang scheduling, requeued, ...) shown in a state JADE has no
+                # name for: zero-cost environment answer, at most scen['odd_states'] times per execution
+                mine = vp.env.get("SLURM_JOB_ID") if hasattr(vp, "env") else None
+                act = [b for b in sim.batches.values() if b.state in ("PENDING", "RUNNING") and b.id != mine]
+                for st in ("PENDING", "RUNNING"):
+                    for b in act:
+                        if b.state == st:
+                            alts.append("odd:" + b.id)
+                            break
             detail = prog + " " + " ".join(
                 (w.rel(a) if w.rel(a) is not None else a) for a in argv[1:] if a not in ("-h",)
             )
